@@ -255,11 +255,18 @@ pub fn run(rep: &mut Rep) {
         let l1 = rng.usize(140);
         let l2 = 58 + rng.usize(14);
         let l3 = rng.usize(310);
-        let a = rng.text_bytes(l1);
-        let b = rng.text_bytes(l2);
-        let c = rng.text_bytes(l3);
+        // random Unicode, and texts built from identifiers / URLs / BOM-prefixed names
+        let pick = |rng: &mut Rng, l: usize| -> String {
+            match crate::schema::gen_text(rng, l) {
+                V::T(b) => String::from_utf8(b).unwrap_or_default(),
+                _ => String::new(),
+            }
+        };
+        let a = pick(&mut rng, l1);
+        let b = pick(&mut rng, l2);
+        let c = pick(&mut rng, l3);
         let il = *rng.pick(&[0usize, 1, 126, 127, 128, 129, 130, 131, 200, 300]);
-        let icon = rng.text_bytes(il);
+        let icon = pick(&mut rng, il);
         if !rep.begin("random-unicode") {
             continue;
         }
